@@ -24,7 +24,8 @@ structure Upload where
 deriving Repr, DecidableEq
 
 structure St where
-  db : List Row := []                 -- persistent
+  db : List Row := []                 -- persistent: the live rows of the prekeys table
+  tomb : List Nat := []               -- persistent: ids of rows whose key was consumed (the row stays, without key material)
   unsent : List (Nat × Nat) := []     -- layer's _unsent_prekeys (volatile)
   inflight : List Upload := []        -- volatile (iq registry)
   rebootFlag : Bool := false          -- volatile
@@ -45,6 +46,9 @@ structure Params where
 
 def maxId (db : List Row) : Nat := db.foldl (fun m r => max m r.id) 0
 
+/-- `loadMaxPreKeyId`: over every row of the table, consumed ones included -/
+def maxIdAll (s : List Row) (tomb : List Nat) : Nat := max (maxId s) (tomb.foldl max 0)
+
 /-- `KeyHelper.generatePreKeys(maxId + 1, count)` with fresh key material (ids far below the 24-bit wrap) -/
 def genKeys (start key count : Nat) : List (Nat × Nat) :=
   (List.range count).map (fun i => (start + i, key + i))
@@ -52,7 +56,7 @@ def genKeys (start key count : Nat) : List (Nat × Nat) :=
 /-- `level_prekeys(force)`: returns the new state and the prekeys generated -/
 def levelPrekeys (p : Params) (s : St) (force : Bool) : St × List (Nat × Nat) :=
   if force || decide (s.db.length < p.threshold) then
-    let ks := genKeys (maxId s.db + 1) s.nextKey p.batch
+    let ks := genKeys (maxIdAll s.db s.tomb + 1) s.nextKey p.batch
     ({ s with db := s.db ++ ks.map (fun kv => { id := kv.1, key := kv.2, sent := false }), nextKey := s.nextKey + p.batch }, ks)
   else (s, [])
 
@@ -126,7 +130,7 @@ def step (p : Params) (s : St) : Ev → St × List Out
   | .consume id =>
     match s.db.find? (fun r => r.id == id) with
     | none => (s, [.invalidKeyId id])
-    | some r => ({ s with db := s.db.filter (fun x => x.id != id), consumed := s.consumed ++ [(r.id, r.key)] }, [.decryptOk r.id r.key])
+    | some r => ({ s with db := s.db.filter (fun x => x.id != id), tomb := s.tomb ++ [id], consumed := s.consumed ++ [(r.id, r.key)] }, [.decryptOk r.id r.key])
 
 def run (p : Params) : St → List Ev → St × List Out
   | s, [] => (s, [])
